@@ -106,7 +106,7 @@ class AskaryanDriver:
         want = scale * self.base[lo - sh:hi - sh]
         got = v[lo:hi]
         err = float(np.max(np.abs(got - want))) if hi > lo else 0.0
-        if err > TOL * scale * max(self.peak, 1e-300):
+        if not (err <= TOL * scale * max(self.peak, 1e-300)):
             k = int(np.argmax(np.abs(got - want)))
             raise Divergence('%s after %s: field vs base field (scale %d/%d, moved by %d samples), sample %d' % (
                 where, op, rel['num'], rel['den'], sh, lo + k), float(want[k]), float(got[k]))
